@@ -112,6 +112,9 @@ func (g *Gen) atomicCall(x ssa.Value, cc *ssa.CallCommon, st *State) bool {
 	if !ok || f.Pkg == nil || f.Pkg.Pkg.Path() != "sync/atomic" {
 		return false
 	}
+	if f.Signature.Recv() != nil {
+		return false // methods of atomic.Bool / Int32 / Value go through their extern contracts
+	}
 	name := f.Name()
 	switch {
 	case strings.HasPrefix(name, "Load"):
